@@ -367,7 +367,14 @@ impl<'a> Interp<'a> {
         };
         // epoch duration is `tail.timestamp - previous_tail.timestamp` (unsigned) in the code under
         // test: keep every timestamp above the previous epoch's tail (see DESIGN §4 item 9)
-        let prev_tail_ts = if p.epoch.number() == 0 {
+        want.max(median + 1).max(self.prev_tail_ts(parent) + 1)
+    }
+
+    fn prev_tail_ts(&self, parent: &H) -> u64 {
+        let p = self.tree.get(parent);
+        // the new block may itself open a new epoch: then `parent` is the previous tail
+        let mut ts = p.block.timestamp().min(u64::MAX);
+        let tail_prev = if p.epoch.number() == 0 {
             self.tree.get(&self.tree.genesis).block.timestamp()
         } else {
             self.tree
@@ -375,7 +382,13 @@ impl<'a> Interp<'a> {
                 .block
                 .timestamp()
         };
-        want.max(median + 1).max(prev_tail_ts + 1)
+        if p.number + 1 >= p.epoch.start_number() + p.epoch.length() {
+            // child of an epoch tail: its epoch's previous tail is `parent`
+            ts = ts.max(tail_prev);
+            ts
+        } else {
+            tail_prev
+        }
     }
 
     fn uncle_candidates(&self, parent: &H) -> Vec<H> {
@@ -642,9 +655,15 @@ impl<'a> Interp<'a> {
             }
             Some(InvalidKind::TimestampTooOld) => {
                 let median = self.tree.median_time(&parent);
-                let b = mb.block.as_advanced_builder().timestamp(median).build();
-                mb.hash = b.hash();
-                mb.block = b;
+                // keep the (unsigned) epoch-duration subtraction of the code under test in range
+                // for blocks built on top of this one (DESIGN §4 item 9)
+                if median > self.prev_tail_ts(&parent) {
+                    let b = mb.block.as_advanced_builder().timestamp(median).build();
+                    mb.hash = b.hash();
+                    mb.block = b;
+                } else {
+                    invalid = None;
+                }
             }
             _ => {}
         }
